@@ -7,6 +7,7 @@ ROOT = os.path.dirname(os.path.dirname(os.path.abspath(__file__)))
 cfg = json.load(open(os.path.join(ROOT, "units", "config.json")))
 repo = sys.argv[1] if len(sys.argv) > 1 else "/repo"
 out = {}
+params = {}
 with tempfile.TemporaryDirectory() as d:
     for u, c in sorted(cfg["units"].items()):
         mp = os.path.join(d, u + ".json")
@@ -14,7 +15,10 @@ with tempfile.TemporaryDirectory() as d:
         if r.returncode != 0:
             print("vx failed for", u, r.stderr[-300:]); sys.exit(1)
         out[u] = {}
+        params.setdefault(u, {})
         for f in json.load(open(mp))["functions"]:
+            if f.get("params") and f.get("key"):
+                params[u][f["key"]] = f["params"]
             k = f.get("key") or f.get("name")
             cur = out[u].get(k, [0, 0])
             out[u][k] = [max(cur[0], f.get("closures_unspecified", 0)), max(cur[1], f.get("loops_unspecified", 0))]
@@ -30,6 +34,7 @@ for pid, pc in cfg["properties"].items():
         assert t is not None, it
         pins["%s::%s" % (it["file"], it["item"])] = t
 out["__pinned_items__"] = pins
+out["__params__"] = params
 out["__remainder_units__"] = {k: v for k, v in rem_units.items() if k in rem}
 json.dump(out, open(os.path.join(ROOT, "units", "baseline.json"), "w"), indent=0, sort_keys=True)
 print("recorded", sum(len(v) for k, v in out.items() if not k.startswith("__")), "functions,", len(rem), "pinned remainders")
